@@ -284,6 +284,10 @@ func runC08(r *core.Run) {
 				}
 			}
 		}
+		if r.Violations() < 10 {
+			s.Directed() // floor: every kind of request at least once per history
+			inspect()
+		}
 		known.mu.Lock()
 		nr := len(known.rs)
 		known.mu.Unlock()
